@@ -221,3 +221,159 @@ def compose_small(H):
     """compose_ltr maps a point through the first transform first - exact unrolling for lengths 0..3 (the general length is affine.compose_ltr.fold)."""
     n = H.case("n", (0, 1, 2, 3))
     _compose_small(H, n)
+
+
+@obligation(P, "affine.compose_ltr.fold", functions=[FN + "compose_ltr"])
+def compose_fold(H):
+    """compose_ltr over a sequence of ANY length maps a point through the first listed transform first.
+
+    Cut-point rule on the fold (functools.reduce is assumed to be a left fold, DESIGN 3.1).  Ghost F(q) is
+    the left-to-right application of the part of the sequence consumed so far.
+    """
+    if H.mode == "concrete":
+        _compose_small(H, 3)
+        return
+    import z3
+
+    from pyvc import loops
+    from pyvc.sym import SReal, real_z
+
+    loops.install(H)
+    R = z3.RealSort()
+    Fx, Fy = z3.Function("Fx", R, R, R), z3.Function("Fy", R, R, R)
+    Gx, Gy = z3.Function("Gx", R, R, R), z3.Function("Gy", R, R, R)
+    x, y = z3.Reals("qx qy")
+
+    def forall_maps_like(M, fx, fy):
+        a, b, c, d, e, f = (real_z(v) for v in M)
+        return z3.ForAll([x, y], z3.And(a * x + c * y + e == fx(x, y), b * x + d * y + f == fy(x, y)))
+
+    class Fold:
+        def check_init(self, fn, xs, init):
+            q = pt(H, "q0")
+            H.prove(H.close(tuple(H.call(Affine2D.map_point, init, q)), q), "compose_ltr.fold.init_is_identity_map")
+
+        def havoc(self, xs):
+            # induction hypothesis "for all q: acc(q) == F(q)", instantiated at the two points the step needs
+            # (quantifier-free, so a broken step is refuted with a model instead of timing out)
+            acc = aff(H, "acc")
+            self.q = pt(H, "q")
+            self.E = aff(H, "E")
+            for at in (self.q, map_pt(self.E, self.q)):
+                m = map_pt(acc, at)
+                H.assume(And(m[0] == SReal(Fx(real_z(at[0]), real_z(at[1]))), m[1] == SReal(Fy(real_z(at[0]), real_z(at[1])))))
+            return acc
+
+        def element(self, xs):
+            return self.E
+
+        def check_step(self, acc, item, acc2):
+            q = self.q
+            got = tuple(H.call(Affine2D.map_point, acc2, q))
+            if xs_view["v"] == "reversed":
+                # consumed part is a suffix: apply_ltr([E] + suffix, q) = apply_ltr(suffix, E(q))
+                m = map_pt(item, q)
+                want = (SReal(Fx(real_z(m[0]), real_z(m[1]))), SReal(Fy(real_z(m[0]), real_z(m[1]))))
+            else:
+                # consumed part is a prefix: apply_ltr(prefix + [E], q) = E(apply_ltr(prefix, q))
+                want = map_pt(item, (SReal(Fx(real_z(q[0]), real_z(q[1]))), SReal(Fy(real_z(q[0]), real_z(q[1])))))
+            H.prove(H.close(got, want), "compose_ltr.fold.step_extends_ltr_application")
+
+        def final(self, xs):
+            acc = aff(H, "accF")
+            H.assume(forall_maps_like(acc, Gx, Gy))
+            return acc
+
+    xs_view = {"v": None}
+    fold = Fold()
+    orig_havoc, orig_init = fold.havoc, fold.check_init
+
+    def rec_view(xs):
+        xs_view["v"] = xs.view
+
+    fold.check_init = lambda fn, xs, init: (rec_view(xs), orig_init(fn, xs, init))[1]
+    fold.havoc = lambda xs: (rec_view(xs), orig_havoc(xs))[1]
+    H.ctx.fold_contract = fold
+    seq = loops.AbsSeq("affines")
+    p = pt(H, "p")
+    Rm = H.call(Affine2D.compose_ltr, seq)
+    got = tuple(H.call(Affine2D.map_point, Rm, p))
+    H.prove(H.close(got, (SReal(Gx(real_z(p[0]), real_z(p[1]))), SReal(Gy(real_z(p[0]), real_z(p[1]))))), "compose_ltr.result_is_the_fold")
+
+
+# name, number of arguments -> SVG 7.6 matrix (angles in degrees)
+def _svg_op_matrix(H, name, a):
+    n = name.lower()
+    if n == "matrix" and len(a) == 6:
+        return tuple(a)
+    if n == "translate" and len(a) in (1, 2):
+        return translate_m(a[0], a[1] if len(a) == 2 else 0)
+    if n == "scale" and len(a) in (1, 2):
+        return scale_m(a[0], a[1] if len(a) == 2 else a[0])
+    if n == "rotate" and len(a) in (1, 3):
+        s, c = H.trig(a[0] * H.PI / 180)
+        R = rotate_m(s, c)
+        if len(a) == 3:
+            return mat_mul(mat_mul(translate_m(a[1], a[2]), R), translate_m(-a[1], -a[2]))
+        return R
+    if n in ("skewx", "skewy") and len(a) == 1:
+        s, c = H.trig(a[0] * H.PI / 180)
+        return ("skew", n, s, c)
+    return None
+
+
+_OPS = (("matrix", 6), ("translate", 1), ("translate", 2), ("scale", 1), ("scale", 2), ("rotate", 1), ("rotate", 3), ("skewX", 1), ("skewY", 1))
+
+
+def _transform_string(H, ops, sep, spell):
+    """Build the attribute text.  Symbolic run: numbers are placeholders @i that the overridden float() turns
+    into symbolic reals (the real regular expressions still do the tokenising); native run: repr of the floats."""
+    vals, parts = [], []
+    for name, k in ops:
+        toks = []
+        for _ in range(k):
+            i = len(vals)
+            v = H.real(f"arg{i}")
+            vals.append(v)
+            toks.append(f"@{i}" if H.mode == "sym" else repr(v))
+        nm = {"spec": name, "lower": name.lower(), "upper": name.upper()}[spell]
+        parts.append(f"{nm}({sep.join(toks)})")
+    return vals, parts
+
+
+@obligation(P, "transform.dispatch", split=("op1", _OPS), functions=["svg_transform.parse_svg_transform", "svg_transform._fix_rotate"])
+def dispatch(H):
+    """A transform attribute is the matrix product of its operations in the listed order, each per SVG 7.6, names case-insensitive."""
+    op1 = H.case("op1", _OPS)
+    op2 = H.case("op2", (None,) + _OPS)
+    sep = H.case("sep", (",", " ", " , "))
+    spell = H.case("spell", ("spec", "lower", "upper"))
+    ops = [op1] + ([op2] if op2 else [])
+    vals, parts = _transform_string(H, ops, sep, spell)
+    text = H.case("between", (" ", ", ", "")).join(parts)
+    if H.mode == "sym":
+        table = {f"@{i}": v for i, v in enumerate(vals)}
+        H.override(float, lambda I, s=0.0: table[s] if isinstance(s, str) and s in table else float(s))
+    M, e = H.catch(parse_svg_transform, text)
+    H.prove(e is None, "dispatch.no_exception_on_valid_list")
+    if e is not None:
+        return
+    want = IDENT
+    k = 0
+    tan_ok = True
+    for name, n in ops:
+        m = _svg_op_matrix(H, name, vals[k : k + n])
+        k += n
+        if isinstance(m[0], str) and m[0] == "skew":
+            _, which, s, c = m
+            if H.mode == "concrete":
+                if abs(c) < 1e-6:
+                    return
+                t = s / c
+            else:
+                # tan characterised by t*c == s; take the code's own value and check the characterisation
+                t = H.call(math.tan, vals[k - 1] * H.PI / 180)
+                H.prove(H.close(t * c, s), "dispatch.skew_uses_tan_of_degrees")
+            m = (1, 0, t, 1, 0, 0) if which == "skewx" else (1, t, 0, 1, 0, 0)
+        want = mat_mul(want, m)
+    H.prove(H.close(tuple(M), want), "dispatch.product_in_listed_order")
